@@ -3,6 +3,7 @@ import TssVerif.Core.Hash
 import TssVerif.Core.Commit
 import TssVerif.Core.OpsCrypto
 import TssVerif.Core.OpsZk
+import TssVerif.Core.OpsSign
 /-! Dispatch of the line protocol: `op arg…` ↦ canonical result string. Unknown or malformed
 lines give `bad-op` (never a default value). -/
 namespace TssVerif.Ops
@@ -56,7 +57,7 @@ def run (line : String) : String :=
     match pList pInt xs with
     | some l => (parseSecretsCfg curParse l).render (rListList rInt)
     | none => "bad-op"
-  | op :: args => ((OpsCrypto.run op args).orElse fun _ => OpsZk.run op args).getD "bad-op"
+  | op :: args => (((OpsCrypto.run op args).orElse fun _ => OpsZk.run op args).orElse fun _ => OpsSign.run op args).getD "bad-op"
   | _ => "bad-op"
 
 end TssVerif.Ops
